@@ -186,12 +186,19 @@ class Builder:
             return a
         if t == "npscalar":
             return getattr(_np(), s[1])(float(s[2]))
-        if t == "series":
+        if t == "ts":                   # ["ts", n]: a pandas Timestamp (hashable: an index label, or a value on its own)
             import pandas as pd
-            return pd.Series([self.b(v) for _, v in s[2]], index=[self.b(i) for i, _ in s[2]], name=s[1])
-        if t == "df":
+            return pd.Timestamp("2024-01-01") + pd.Timedelta(days=int(s[1]))
+        if t == "series":               # ["series", name | name spec, [[label spec, value spec], …]] (rows in row order)
             import pandas as pd
-            return pd.DataFrame({c: [self.b(v) for v in vs] for c, vs in s[2]}, index=[self.b(i) for i in s[1]])
+            name = self.b(s[1]) if isinstance(s[1], list) else s[1]
+            return pd.Series([self.b(v) for _, v in s[2]], index=[self.b(i) for i, _ in s[2]], name=name)
+        if t == "df":                   # ["df", [index label spec, …], [[column label | spec, [value spec, …]], …]] (columns in order)
+            import pandas as pd
+            cols = [self.b(c) if isinstance(c, list) else c for c, _ in s[2]]
+            df = pd.DataFrame({i: [self.b(v) for v in vs] for i, (_, vs) in enumerate(s[2])}, index=[self.b(i) for i in s[1]])
+            df.columns = cols            # (after the fact: repeated column labels are possible)
+            return df
         if t == "obj":
             return (Obj2 if s[1] else Obj)(*[self.b(x) for x in s[2]])
         if t == "unpicklable":
@@ -309,6 +316,33 @@ class Encoder:
         return self.atom(x)
 
 
+def enc_pandas(enc: Encoder, x):
+    """A Series / DataFrame as the request of the model's `serieskeys` / `framekeys` entry (Model/HashablePandas.lean): the rows
+    (label, value) in row order, the columns (label, values) in column order — read off the object with `tolist()`, not with
+    the `to_dict` calls the implementation makes.  Labels must be scalars of the model, NaNs are outside."""
+    import pandas as pd
+
+    def label(l):
+        if l is None or type(l) in (bool, int, float, str, bytes):
+            if isinstance(l, float) and l != l:
+                raise OutOfModel("nan label")
+            return enc.atom(l)
+        raise OutOfModel(f"label {type(l)}")
+
+    def value(v):
+        if isinstance(v, float) and v != v:
+            raise OutOfModel("nan value")
+        return enc.enc(v)
+
+    if type(x) is pd.Series:
+        return "serieskeys", {"cls": other_index(type(x)), "name": enc.enc(x.name),
+                              "rows": [[label(l), value(v)] for l, v in zip(x.index.tolist(), x.tolist())]}
+    if type(x) is pd.DataFrame:
+        return "framekeys", {"cls": other_index(type(x)), "index": [label(l) for l in x.index.tolist()],
+                             "cols": [[label(c), [value(v) for v in x.iloc[:, i].tolist()]] for i, c in enumerate(x.columns.tolist())]}
+    raise OutOfModel("not a pandas object")
+
+
 def dumps(j) -> str:
     return json.dumps(j, sort_keys=True, separators=(",", ":"))
 
@@ -403,10 +437,20 @@ def py_same(a, b) -> bool:  # noqa: C901, PLR0911, PLR0912
     mod = type(a).__module__.split(".")[0]
     if mod == "pandas":
         import pandas as pd
+        # the same labels in the same order (index, columns, name) and the same values row by row; numbers by `==` as everywhere
+        # (an int64 and a float64 Series of equal values are the same value, like [1] and [1.0]); a NaN is a fresh object
+        # whenever it is read, so a NaN-holding Series is not `py_same` to itself unless NAN_EQUAL (as for ndarrays)
         if isinstance(a, pd.Series):
-            return leaf_eq(a.name, b.name) and a.index.equals(b.index) and a.equals(b)
-        return a.index.equals(b.index) and a.columns.equals(b.columns) and a.equals(b)
+            return (py_same(a.name, b.name) and len(a) == len(b) and _labels_same(a.index, b.index)
+                    and all(py_same(x, y) for x, y in zip(a.tolist(), b.tolist())))
+        if isinstance(a, pd.DataFrame):
+            return (a.shape == b.shape and _labels_same(a.index, b.index) and _labels_same(a.columns, b.columns)
+                    and all(py_same(x, y) for i in range(a.shape[1]) for x, y in zip(a.iloc[:, i].tolist(), b.iloc[:, i].tolist())))
     return leaf_eq(a, b)
+
+
+def _labels_same(i, j) -> bool:
+    return len(i) == len(j) and all(py_same(x, y) for x, y in zip(i.tolist(), j.tolist()))
 
 
 def keq(k1, k2) -> bool:
